@@ -69,6 +69,10 @@ def parseOps (t : String) : Option (List SOp) :=
       some (elems.map (fun v =>
         if szn == 8 then SOp.rInt 64 signed v 10 else if szn == 4 then SOp.rInt 32 signed v 10 else SOp.rIntN (8 * szn) signed v 10))
     else (parseOp (",".intercalate ["rA", sz, fmt, h])).map (fun o => [o])
+  -- rN,<count>: a loop of <count> calls SCPI_ResultInt32(context, k % 10) (units answering tens of thousands of items)
+  | ["rN", n] => do
+    let n ← n.toNat?
+    some ((List.range n).map (fun k => SOp.rInt 32 true (k % 10) 10))
   | _ => (parseOp t).map (fun o => [o])
 
 def parseTable (t : String) : Option (List Cmd) :=
